@@ -145,6 +145,9 @@ pub mod verif_hooks {
         pub lenient_quotient_truncation: bool,
         /// Start the running sum of every lookup table at the offset that makes it end at zero.
         pub offset_lookup_sums: bool,
+        /// Start the table-check polynomial RE of every lookup table at the value that makes it end at
+        /// the value of the declared table.
+        pub offset_lookup_re: bool,
     }
 
     std::thread_local! {
@@ -638,6 +641,29 @@ fn compute_lookup_polys<
                 }
             }
             final_poly_vecs[num_partial_lookups].values[lookup_wire.first_lut_gate + 1] += offset;
+        }
+    }
+
+    #[cfg(feature = "verif_hooks")]
+    if verif_hooks::get().offset_lookup_re {
+        let delta = deltas[LookupChallenges::ChallengeDelta as usize];
+        let per_row = delta.exp_u64(num_lut_slots as u64);
+        for (lut_index, lookup_wire) in prover_data.lookup_rows.iter().enumerate() {
+            let rows = lookup_wire.first_lut_gate + 1 - lookup_wire.last_lut_gate;
+            let declared = crate::plonk::vanishing_poly::get_lut_poly(
+                common_data,
+                lut_index,
+                deltas,
+                num_lut_slots * rows,
+            )
+            .eval(delta);
+            let mut shift = (declared - final_poly_vecs[0].values[lookup_wire.last_lut_gate])
+                / per_row.exp_u64(rows as u64);
+            final_poly_vecs[0].values[lookup_wire.first_lut_gate + 1] += shift;
+            for row in (lookup_wire.last_lut_gate..=lookup_wire.first_lut_gate).rev() {
+                shift *= per_row;
+                final_poly_vecs[0].values[row] += shift;
+            }
         }
     }
 
